@@ -107,12 +107,16 @@ class Units:
                 return CHAR if not isinstance(e.args[0], (ast.List, ast.Tuple, ast.Dict, ast.Set)) else OTHER
             if isinstance(e.func, ast.Attribute) and e.func.attr == "splitlines":
                 return SPLITLINES
+            if isinstance(e.func, ast.Attribute) and e.func.attr == "readlines" and "StringIO" in norm(e.func.value):
+                return "NLLINES"      # io.StringIO(text).readlines(): lines end at \n only (no newline translation for an initial value)
+            if isinstance(e.func, ast.Attribute) and e.func.attr == "split" and len(e.args) == 1 and isinstance(e.args[0], ast.Constant) and e.args[0].value == "\n":
+                return "NLLINES"
             if d in ("re.findall", "re.split") and e.args and isinstance(e.args[0], ast.Constant) and isinstance(e.args[0].value, str) \
                     and "\\n" in e.args[0].value and not any(x in e.args[0].value for x in ("\\f", "\\v", "\\x0c", "\\x0b", "\\u2028", "\\x85")):
                 return TOKLINES
             if d in ("tuple", "list") and e.args:
                 u = self.unit(e.args[0])
-                return u if u in (SPLITLINES, SPLITTABLE, TOKLINES, "TOKTABLE") else OTHER
+                return u if u in (SPLITLINES, SPLITTABLE, TOKLINES, "TOKTABLE", "NLLINES") else OTHER
             if d in ("min", "max") and e.args:
                 us = {self.unit(a) for a in e.args}
                 for u in (BYTE, CHAR, LINENO):
@@ -233,7 +237,7 @@ def check(prog: Program, tier: str) -> Result:
             u = Units(prog, fn, ret_units)
             rets = [n for n in walk_own(fn.node) if isinstance(n, ast.Return) and n.value is not None]
             us = {u.unit(r.value) for r in rets}
-            if len(us) == 1 and next(iter(us)) in (CHAR, BYTE, SPLITLINES, SPLITTABLE, TOKLINES, "TOKTABLE"):
+            if len(us) == 1 and next(iter(us)) in (CHAR, BYTE, SPLITLINES, SPLITTABLE, TOKLINES, "TOKTABLE", "NLLINES"):
                 ret_units[fn.key] = next(iter(us))
     n_expr = 0
     for fn in prog.funcs.values():
@@ -296,6 +300,13 @@ def check(prog: Program, tier: str) -> Result:
                         res.bad("R13.2", fn.loc(n), fn.fq, short(n, 90),
                                 "a list/table produced by str.splitlines is indexed by an ast line number: splitlines also splits at form feed, vertical tab, "
                                 "\\x1c-\\x1e, \\x85, \\u2028, \\u2029, which do not end a line for the tokenizer, so every line after such a character is off by one")
+                elif base == "NLLINES":
+                    idx_parts = [n.slice.lower, n.slice.upper] if isinstance(n.slice, ast.Slice) else [n.slice]
+                    if any(p is not None and _mentions_lineno(u, p) for p in idx_parts):
+                        n_expr += 1
+                        res.bad("R13.2", fn.loc(n), fn.fq, short(n, 90),
+                                "a list of lines split at \\n only (StringIO.readlines / split('\\n')) is indexed by an ast line number: the tokenizer also ends a line at a lone "
+                                "\\r (classic Mac line ends, a stray \\r inside a triple-quoted literal), so every line after one is off by one")
                 elif base in (TOKLINES, "TOKTABLE"):
                     idx_parts = [n.slice.lower, n.slice.upper] if isinstance(n.slice, ast.Slice) else [n.slice]
                     if any(p is not None and _mentions_lineno(u, p) for p in idx_parts):
